@@ -41,6 +41,14 @@ PATCHY = gen.SIMPLE_PIX + gen.ANNULI_PIX
 def generate(rng, tier, shard, nshards):
     n = 600 if tier == 'quick' else 8000
     for i in range(n):
+        if i % 25 == 7:
+            # extreme but valid sizes: slits with aspect ratios of 1e13..1e15, sizes near the ends of the float64 range
+            kind = rng.choice(['slit-x', 'slit-y', 'tiny', 'huge'])
+            w, h = {'slit-x': (gen.logu(rng, 1e14, 1e16), gen.logu(rng, 0.5, 50)), 'slit-y': (gen.logu(rng, 0.5, 50), gen.logu(rng, 1e14, 1e16)),
+                    'tiny': (gen.logu(rng, 1e-175, 1e-160), gen.logu(rng, 1e-175, 1e-160)), 'huge': (gen.logu(rng, 1e150, 1e160), gen.logu(rng, 1e150, 1e160))}[kind]
+            yield {'lane': 'extreme-rectangle', 'w': w, 'h': h, 'angle': 0.0, 'cx': rng.uniform(-50, 50), 'cy': rng.uniform(-50, 50),
+                   'annulus': rng.random() < 0.3, 'origin': rng.choice([[0, 0], [7, 3], [0.5, -2.25]]), 'kw': {}, 'rs': rng.randrange(2 ** 31)}
+            continue
         cls = rng.choice(PATCHY + ['PointPixelRegion', 'LinePixelRegion', 'TextPixelRegion'])
         reg = gen.pixel_region_spec(rng, cls=cls, size=gen.logu(rng, 0.5, 200), center=(rng.uniform(-100, 100), rng.uniform(-100, 100)), max_aspect=10.0,
                                     include='absent', angle=(None if rng.random() < 0.8 else S.q(rng.choice([180.0, -180.0, 540.0, 90.0, 270.0, 360.0]), 'deg')))
@@ -85,7 +93,7 @@ def generate(rng, tier, shard, nshards):
                                  {'fillstyle': 'left', 'markerfacecolor': 'yellow', 'markeredgecolor': 'cyan'}, {'fillstyle': 'full', 'mfc': 'yellow'},
                                  {'markerfacecolor': 'yellow'}, {'fillstyle': 'full', 'mfc': 'yellow', 'mec': 'cyan'}, {'fillstyle': 'full'}])
             else:
-                kw = rng.choice([{'edgecolor': 'green'}, {'ec': 'green'}, {'fill': True, 'facecolor': 'green'}, {'edgecolor': 'cyan'}, {'linewidth': 7.5}, {'fill': True, 'facecolor': 'yellow'}, {'alpha': 0.25}, {'linestyle': '-.'},
+                kw = rng.choice([{'linewidth': None}, {'linestyle': None}, {'edgecolor': None}, {'edgecolor': 'green'}, {'ec': 'green'}, {'fill': True, 'facecolor': 'green'}, {'edgecolor': 'cyan'}, {'linewidth': 7.5}, {'fill': True, 'facecolor': 'yellow'}, {'alpha': 0.25}, {'linestyle': '-.'},
                                  {'ec': 'cyan'}, {'lw': 6.5}, {'ls': '-.'}, {'fill': True, 'fc': 'yellow'}])
         yield {'lane': cls, 'region': reg, 'origin': rng.choice([[0, 0], [0, 0], [rng.uniform(-50, 50), rng.uniform(-50, 50)], [10, -3], [0.5, 0.5], [-0.25, 7.75], [100, 64], [7, 3], [100, 64]]), 'kw': kw,
                'rs': rng.randrange(2 ** 31)}
@@ -142,7 +150,46 @@ def _axes():
     return _AX['ax']
 
 
+def run_extreme_rectangle(case, obs):
+    import astropy.units as u
+    import regions
+    w, h, cx, cy = case['w'], case['h'], case['cx'], case['cy']
+    ox, oy = case['origin']
+    ang = case['angle']
+    c = regions.PixCoord(cx, cy)
+    if case['annulus']:
+        reg = regions.RectangleAnnulusPixelRegion(c, w / 2, w, h / 4, h, ang * u.deg)
+        sizes = [(w, h), (w / 2, h / 4)]
+    else:
+        reg = regions.RectanglePixelRegion(c, w, h, ang * u.deg)
+        sizes = [(w, h)]
+    try:
+        art = reg.as_artist(origin=(ox, oy))
+    except Exception as exc:
+        obs.violation('as_artist-raises', f'{type(reg).__name__}(width={w!r}, height={h!r}, angle={ang}).as_artist raised {type(exc).__name__}: {exc}')
+        return
+    verts = data_path(art).vertices
+    eps = np.finfo(float).eps
+    obs.count('extreme-rectangles')
+    for k, (ww, hh) in enumerate(sizes):
+        if ang % 180 == 90:
+            ww, hh = hh, ww
+        # expected corners (axis-aligned): per coordinate, to a few ulp of the coordinate
+        xs, ys = [cx - ox - ww / 2, cx - ox + ww / 2], [cy - oy - hh / 2, cy - oy + hh / 2]
+        tolx, toly = 16 * eps * (abs(cx) + abs(ox) + ww) + 1e-300, 16 * eps * (abs(cy) + abs(oy) + hh) + 1e-300
+        ok = True
+        for ex in xs:
+            for ey in ys:
+                if not np.any((np.abs(verts[:, 0] - ex) <= tolx) & (np.abs(verts[:, 1] - ey) <= toly)):
+                    ok = False
+        obs.check(ok, 'artist-outline-differs-from-region:' + type(reg).__name__,
+                  f'{type(reg).__name__}(centre=({cx!r},{cy!r}), {"outer" if k == 0 else "inner"} size {ww!r} x {hh!r}, angle {ang}) origin ({ox},{oy}): the patch has no '
+                  f'vertex at every corner of the rectangle (x in {xs}, y in {ys}); patch vertices {verts[:10].tolist()}', 'path-membership')
+
+
 def run_case(case, obs):
+    if case['lane'] == 'extreme-rectangle':
+        return run_extreme_rectangle(case, obs)
     import matplotlib
     import matplotlib.patches as mp
     import matplotlib.lines as ml
@@ -339,7 +386,18 @@ def winding_number(vx, vy, px, py):
 def judge_patch_kwargs(obs, art, reg, kw, cls):
     vis = dict(reg.visual)
     kw = {{'ec': 'edgecolor', 'lw': 'linewidth', 'ls': 'linestyle', 'fc': 'facecolor'}.get(k, k): v for k, v in kw.items()}      # aliases -> property names
+    for k, v in list(kw.items()):
+        if v is None:
+            # an explicit None is matplotlib's "use your default": it overrides the stored attribute like any other value
+            import matplotlib.patches as _mp
+            ref = _mp.Circle((0, 0), 1, fill=art.get_fill(), **{k: None})
+            getter = {'linewidth': 'get_linewidth', 'linestyle': 'get_linestyle', 'edgecolor': 'get_edgecolor'}[k]
+            got, exp = getattr(art, getter)(), getattr(ref, getter)()
+            same = colour_eq(got, exp) if k == 'edgecolor' else got == exp
+            obs.check(same, 'caller-kwargs-do-not-override', f'{cls}: {k}=None (matplotlib default {exp!r}) not applied (got {got!r})', 'kwargs-override')
     for k, v in kw.items():
+        if v is None:
+            continue
         if k == 'edgecolor':
             obs.check(colour_eq(art.get_edgecolor(), v), 'caller-kwargs-do-not-override', f'{cls}: edgecolor kwarg {v!r} not applied (got {art.get_edgecolor()})', 'kwargs-override')
         elif k == 'linewidth':
